@@ -8,6 +8,7 @@ import SfsModel.Model.Spectrum
 import SfsModel.Model.XR
 import SfsModel.Driver.Proto
 import SfsModel.Driver.Create
+import SfsModel.Driver.Io
 open Sfs Sfs.Drv
 
 def half : XR := .fin (1 / 2)
@@ -127,6 +128,7 @@ def handle (op : String) (a : List String) (impl : String) : Option Verdict :=
     | [p, "mem"] => handleMem a impl p
     | [p, "cli"] => handleCli a impl p
     | ["c12", "same"] => handleSame a impl
+    | ["io", _] => handleIo op a impl
     | _ => none
 
 def processLine (line : String) : String :=
